@@ -227,7 +227,8 @@ fn gen_float_limits64(r: &mut Rng) -> (Option<B64>, Option<B64>) {
 }
 
 fn gen_scale_offset(r: &mut Rng) -> (B64, B64) {
-    let scale = *r.pick(&[1.0f64, 0.001, 0.5, 0.0001, 2.0, 1e-6, 3.0, -0.25, 0.1]);
+    // (the last three are subnormal or next to it: legal, and not "normal" floating-point numbers)
+    let scale = *r.pick(&[1.0f64, 0.001, 0.5, 0.0001, 2.0, 1e-6, 3.0, -0.25, 0.1, 1.0, 0.001, 0.01, 1e-310, 5e-324, 2.3e-308]);
     let offset = *r.pick(&[0.0f64, 0.0, 100.0, -1.5, 1e6, 0.333]);
     (B64::of(scale), B64::of(offset))
 }
@@ -392,7 +393,7 @@ pub fn packet_capacity(proto: &[Rec]) -> usize {
 
 // ------------------------------------------------------------------ strings & metadata
 
-pub const STRING_POOL: [&str; 24] = [
+pub const STRING_POOL: [&str; 26] = [
     "scan",
     "Station 001",
     "",
@@ -417,6 +418,9 @@ pub const STRING_POOL: [&str; 24] = [
     "a]]b]>c>",
     "\u{7f}\u{80}\u{fffd}",
     "tab\tsep",
+    // the characters on both sides of the surrogate gap and at the upper end of XML's Char range
+    "edge\u{d7ff}\u{e000}",
+    "\u{fffd}\u{10ffff}",
 ];
 
 /// strings without the characters that need the CDATA-split repair
@@ -490,9 +494,11 @@ pub fn gen_xform(r: &mut Rng) -> Xform {
             }
         }
     };
+    // now and then no translation at all (with the identity rotation: an explicit identity pose)
+    let tr = if r.chance(1, 4) { [0.0; 3] } else { [gen_finite(r), gen_finite(r), gen_finite(r)] };
     Xform {
         rot: [B64::of(rot[0]), B64::of(rot[1]), B64::of(rot[2]), B64::of(rot[3])],
-        tr: [B64::of(gen_finite(r)), B64::of(gen_finite(r)), B64::of(gen_finite(r))],
+        tr: [B64::of(tr[0]), B64::of(tr[1]), B64::of(tr[2])],
     }
 }
 
